@@ -13,7 +13,7 @@ from vlib import Hit, Result, diff_lines, sh
 
 ASSUMPTIONS = [
     'sequentially consistent interleaving at the granularity one step = one atomic access / one critical section',
-    'fragment without yield_to (next_thrd); thread-object recycling IS modelled (reference counts, terminated_items, heaps, rebind with tag reset): C01_sched_recycle_fresh; the harness still splits the chains of a thread object at rebind (hook 105), which the theorem justifies for counted handles; a waker inside set_thread_state holds an uncounted thread_id_type and CAN act on the next incarnation (C01_sched_waker_in_flight_stale_refuted: a spurious wake-up, accepted by the acceptor as a SiteSet transition of the new chain)',
+    'the trace tie and the single-runner / entered-once / recycling theorems are for the fragment without yield_to (next_thrd): this_thread::yield_to has no caller inside pika and the harness does not call it; Model/SchedY.v adds it: conservative on programs without YieldTo (C01_sched_yield_to_fragment), weakened handle invariant + no-drop for all programs, single runner refuted there (yield_to + pending_boost + set_thread_state; not replayed on the real runtime); thread-object recycling IS modelled (reference counts, terminated_items, heaps, rebind with tag reset): C01_sched_recycle_fresh; the harness still splits the chains of a thread object at rebind (hook 105), which the theorem justifies for counted handles; a waker inside set_thread_state holds an uncounted thread_id_type and CAN act on the next incarnation (C01_sched_waker_in_flight_stale_refuted: a spurious wake-up, accepted by the acceptor as a SiteSet transition of the new chain)',
     'counted references held by user code (pika::thread, ids returned by register_thread) are not modelled: they only delay recycling; the do_yield keep-alive reference is attached to the store that ends the phase / the CAS that starts the next (it is never the first or last reference)',
     'state_ex is constantly `signaled` in the modelled fragment (no timed suspension, no abort); the acceptor compares (state, tag) only',
     'queue back-ends (lock-free FIFO/LIFO, ABP deque) are an abstract bag with an oracle-chosen pop: their own correctness is C17 (deque ABA F15 is owned there)',
@@ -123,6 +123,30 @@ def model_search(ctx, r, prop, drv, n):
                               {'model_run': ins[idx], 'out': ln}))
     if got != n:
         r.hits.append(Hit('tie', prop + ':model_driver', 'model driver answered %d of %d runs: %s' % (got, n, out[-400:]), {}))
+    # the extended model with yield_to (Model/SchedY.v): programs WITH YieldTo; monitors = the weakened
+    # handle invariant (every live task has a current handle) and nothing dropped when quiescent
+    # (both proved for all programs: C01_sched_yield_to_handles / _no_drop); single runner is NOT
+    # monitored there (it is false: C01_sched_single_runner_yield_to_refuted)
+    ny = max(30, n // 3)
+    insy = ['IN MRUNY %d %d %d %d' % (i, ctx.seed * 100019 + i, 2 + (i % 5), 100 + 41 * (i % 9)) for i in range(ny)]
+    rc, out = sh([drv], input='\n'.join(insy) + '\n', timeout=900)
+    goty = 0
+    for ln in out.split('\n'):
+        if not ln.startswith('OUT MRUNY '):
+            continue
+        goty += 1
+        f = dict(x.split('=', 1) for x in ln.split(' ')[3:])
+        r.evaluations += 1
+        r.count('model_run_yield_to_idle=' + f['idle'])
+        if int(f.get('ninc', '0')) >= 2:
+            r.nontrivial(ln)
+        idx = int(ln.split(' ')[2])
+        if f['ok'] != '1':
+            r.hits.append(Hit('model', prop + ':model_monitor_yield_to',
+                              'the extended model (yield_to) violates its monitor (a live task without a current handle, or a quiescent state with a live task) on ' + insy[idx],
+                              {'model_run': insy[idx], 'out': ln}))
+    if goty != ny:
+        r.hits.append(Hit('tie', prop + ':model_driver', 'model driver answered %d of %d yield_to runs: %s' % (goty, ny, out[-400:]), {}))
 
 
 def run_modes(ctx, prop, modes, extract_v, driver_ml, hsrc, hname):
